@@ -179,6 +179,30 @@ def _unbool(e):
     return T().visit(e)
 
 
+_CAPTURED: List[Set[str]] = [set()]
+
+
+def _captured_names(stmts) -> Set[str]:
+    """names read inside nested functions / lambdas / comprehensions... of a body (what a callee could observe of the locals)"""
+    out: Set[str] = set()
+    for s in stmts:
+        for n in ast.walk(s):
+            if isinstance(n, (ast.FunctionDef, ast.Lambda, ast.AsyncFunctionDef)):
+                out |= {x.id for x in ast.walk(n) if isinstance(x, ast.Name)}
+            elif isinstance(n, ast.Call) and call_name(n) in ("locals", "vars", "eval", "exec"):
+                out |= {x.id for s2 in stmts for x in ast.walk(s2) if isinstance(x, ast.Name)}
+    return out
+
+
+def _norm_body(stmts: List[ast.stmt]) -> List[ast.stmt]:
+    """_norm_block for a whole function body (records which locals are visible to closures)"""
+    _CAPTURED.append(_captured_names(stmts))
+    try:
+        return _norm_block(stmts)
+    finally:
+        _CAPTURED.pop()
+
+
 def _norm_block(stmts: List[ast.stmt]) -> List[ast.stmt]:
     out: List[ast.stmt] = []
     i = 0
@@ -228,8 +252,9 @@ def _norm_block(stmts: List[ast.stmt]) -> List[ast.stmt]:
                     and len(s.targets[0].elts) == len(s.value.elts) and all(isinstance(t, ast.Name) for t in s.targets[0].elts):
                 tn = {t.id for t in s.targets[0].elts}
                 if len(tn) == len(s.targets[0].elts) and not any(isinstance(x, ast.Name) and x.id in tn for v_ in s.value.elts for x in ast.walk(v_)) \
-                        and not any(isinstance(x, ast.Call) for v_ in s.value.elts for x in ast.walk(v_)):
-                    # a, b = e1, e2 with call-free values that do not read a or b: the same as a = e1; b = e2
+                        and not (tn & _CAPTURED[-1]):
+                    # a, b = e1, e2 where the values do not read a or b and no closure of the function reads them (a call among the values cannot
+                    # observe whether `a` was stored before or after it ran): the same as a = e1; b = e2
                     for t, v_ in zip(s.targets[0].elts, s.value.elts):
                         new = ast.Assign(targets=[ast.Name(id=t.id, ctx=ast.Store())], value=v_)
                         out.append(ast.fix_missing_locations(ast.copy_location(new, s)))
@@ -282,6 +307,22 @@ def _accumulate_loops(stmts: List[ast.stmt]) -> List[ast.stmt]:
                     ast.copy_location(new, s)
                     out.append(ast.fix_missing_locations(new))
                     done = True
+                elif isinstance(s.value, ast.Constant) and isinstance(s.value.value, (int, float)) and not isinstance(s.value.value, bool) and cond is None:
+                    # x = 0; for t in I: x = x + e  (or x += e)   ==   x = sum(e for t in I)   [sum starts from 0 and adds on the right]
+                    e = None
+                    if isinstance(b, ast.AugAssign) and isinstance(b.op, ast.Add) and path_of(b.target) == x:
+                        e = b.value
+                    elif isinstance(b, ast.Assign) and len(b.targets) == 1 and path_of(b.targets[0]) == x and isinstance(b.value, ast.BinOp) \
+                            and isinstance(b.value.op, ast.Add) and path_of(b.value.left) == x:
+                        e = b.value.right
+                    if e is not None and x not in _names_loaded(e):
+                        args = [ast.GeneratorExp(elt=e, generators=[gen])]
+                        if s.value.value != 0:
+                            args.append(s.value)
+                        new = ast.Assign(targets=[ast.Name(id=x, ctx=ast.Store())], value=ast.Call(func=ast.Name(id="sum", ctx=ast.Load()), args=args, keywords=[]))
+                        ast.copy_location(new, s)
+                        out.append(ast.fix_missing_locations(new))
+                        done = True
         if done:
             i += 2
         else:
@@ -416,7 +457,7 @@ def alpha(f):
 def structural(fn):
     """V1"""
     f = clone(fn)
-    f.body = _norm_block(f.body)
+    f.body = _norm_body(f.body)
     f = alpha(f)
     return set_parents(ast.fix_missing_locations(f))
 
@@ -487,11 +528,33 @@ class Resolver:
         self.repo, self.ci = repo, ci
         self.rel = rel or (ci.module.rel if ci is not None else None)
         self.keep = keep          # helpers that a rule is about: never inlined
+        self.local_defs: Dict[str, ast.FunctionDef] = {}
+
+    def set_local_defs(self, fn):
+        """nested `def h(...)` at the top level of fn's body, bound exactly once and never re-bound: calling h(...) later in the same body runs its
+        statements in the enclosing scope's environment (free variables are the enclosing function's), so the call can be inlined like a helper"""
+        self.local_defs = {}
+        stored: Dict[str, int] = {}
+        for n in ast.walk(fn):
+            if isinstance(n, ast.Name) and isinstance(n.ctx, (ast.Store, ast.Del)):
+                stored[n.id] = stored.get(n.id, 0) + 1
+            elif isinstance(n, (ast.FunctionDef, ast.ClassDef)) and n is not fn:
+                stored[n.name] = stored.get(n.name, 0) + 1
+        for s in fn.body:
+            if isinstance(s, ast.FunctionDef) and not s.decorator_list and stored.get(s.name, 0) == 1 \
+                    and not any(isinstance(x, (ast.Nonlocal, ast.Global, ast.Yield, ast.YieldFrom)) for x in ast.walk(s)):
+                # the closure must not be handed out (stored, passed, returned): only called
+                uses = [x for x in ast.walk(fn) if isinstance(x, ast.Name) and x.id == s.name and isinstance(x.ctx, ast.Load)]
+                called = [x.func for x in ast.walk(fn) if isinstance(x, ast.Call) and isinstance(x.func, ast.Name) and x.func.id == s.name]
+                if uses and len(uses) == len(called):
+                    self.local_defs[s.name] = s
 
     def lookup(self, call: ast.Call):
         cn = call_name(call)
         if not cn or cn.rsplit(".", 1)[-1] in self.keep:
             return None
+        if cn in self.local_defs:
+            return self.local_defs[cn], 0
         if cn.startswith("self.") and cn.count(".") == 1 and self.ci is not None:
             name = cn[5:]
             if not name.startswith("_") or name.startswith("__"):
@@ -565,7 +628,7 @@ def _inline_call(call: ast.Call, helper: ast.FunctionDef, skip: int, make_tail, 
             binding[p_] = defmap[p_]
     binding.update(extra_binding)
     body = [s for s in clone(helper.body) if not (isinstance(s, ast.Expr) and isinstance(s.value, ast.Constant) and isinstance(s.value.value, str))]
-    body = _norm_block(body)
+    body = _norm_body(body)
     if not _tail_returns_only(body):
         return None
     if value_used and not _leaves(body):
@@ -775,9 +838,10 @@ def inlined(fn, repo, ci=None, rel=None, depth=2, keep=frozenset()):
     """V2"""
     f = clone(fn)
     res = Resolver(repo, ci, rel, keep)
-    f.body = _norm_block(f.body)
+    f.body = _norm_body(f.body)
+    res.set_local_defs(f)
     f.body = _inline_block(f.body, res, depth, (fn.name,))
-    f.body = _norm_block(f.body)
+    f.body = _norm_body(f.body)
     f.body = _sink_into_branches(f.body)
     f = alpha(f)
     return set_parents(ast.fix_missing_locations(f))
@@ -980,7 +1044,7 @@ def bool_temps_substituted(f):
         before = ast.dump(f)
         f = substituted(f, only=lambda rhs: _is_boolish(rhs))
         g = clone(f)
-        g.body = _norm_block(g.body)
+        g.body = _norm_body(g.body)
         f = set_parents(ast.fix_missing_locations(alpha(g)))
         if ast.dump(f) == before:
             break
@@ -1036,7 +1100,7 @@ def _fix(f):
         before = ast.dump(f)
         f = substituted(f)
         g = clone(f)
-        g.body = _norm_block(g.body)
+        g.body = _norm_body(g.body)
         f = set_parents(ast.fix_missing_locations(alpha(g)))
         if ast.dump(f) == before:
             break
